@@ -206,7 +206,9 @@ func (c *conn) send(msg *kmip.ResponseMessage) error {
 	}
 	tx := c.tx.Load().(chan txMsg)
 	verifAt("server.send.loaded")
-	errCh := make(chan error)
+	// Buffered, so that the write loop can always report and move on even if this
+	// sender has given up waiting in the meantime.
+	errCh := make(chan error, 1)
 	select {
 	case tx <- txMsg{msg: msg, err: errCh}:
 		select {
